@@ -59,6 +59,38 @@ def decompress(path, data):
     return data
 
 
+def decompress_prefix(container, data):
+    """What a streaming decoder can get out of a damaged (truncated) container: the decodable
+    prefix of the plain stream. Used only to find out which records a fault can have touched."""
+    if container == "":
+        return data
+    out = []
+    pos = 0
+    try:
+        while pos < len(data):
+            if container == ".gz":
+                d = zlib.decompressobj(wbits=31)
+            elif container == ".bz2":
+                d = bz2.BZ2Decompressor()
+            elif container == ".xz":
+                d = lzma.LZMADecompressor()
+            else:
+                return b""
+            chunk = data[pos:]
+            # feed in small pieces so that everything before the damage is returned
+            fed = 0
+            while fed < len(chunk) and not d.eof:
+                piece = chunk[fed : fed + 64]
+                fed += len(piece)
+                out.append(d.decompress(piece))
+            if not d.eof:
+                break
+            pos += fed - len(d.unused_data)
+    except Exception:
+        pass
+    return b"".join(out)
+
+
 def gzip_decompress_all(data):
     """All members, judged by zlib; empty input is an empty file (as gzip -d would refuse,
     but xopen treats a zero-byte .gz as empty)."""
